@@ -30,6 +30,12 @@ def main(tier: str, seed: int) -> int:
         dig = dig[:1600]
     for j in range(16):
         shards.append({"prop": PROP, "judges": JUDGES + ["t1"], "modes": ["I", "GI", "O", "GO"], "source": "stackdig", "indices": dig[j::16], "seed": E.seed_int(PROP, run.seed, "dg", j), "cap": 40, "maxlen": 2, "sample_at": 10**9})
+    swp = list(range(G.stack_swap_size()))
+    _random.Random(E.seed_int(PROP, run.seed, "swap")).shuffle(swp)
+    if run.quick:
+        swp = swp[:800]
+    for j in range(16):
+        shards.append({"prop": PROP, "judges": JUDGES + ["t1"], "modes": ["I", "GI", "O", "GO"], "source": "stackswap", "indices": swp[j::16], "seed": E.seed_int(PROP, run.seed, "sw", j), "cap": 20, "maxlen": 1, "sample_at": 10**9})
     E.execute(run, shards)
     from pv.checks import bundled
 
